@@ -67,6 +67,12 @@ func runC10(r *Run) {
 	img := newScratchDir("c10img")
 	defer os.RemoveAll(dir)
 	defer os.RemoveAll(img)
+	defer func() {
+		if r.Failed() && os.Getenv("OXSIM_KEEP_IMG") != "" {
+			_ = copyTree(img, fmt.Sprintf("/tmp/c10fail-%d/img", r.Seed))
+			_ = copyTree(dir, fmt.Sprintf("/tmp/c10fail-%d/dir", r.Seed))
+		}
+	}()
 	walDir := filepath.Join(dir, "ns", "shard-1")
 	if cs.Format == "v1" {
 		// a pre-existing v1 segment makes the WAL continue in the v1 format
@@ -96,7 +102,7 @@ func runC10(r *Run) {
 		if gi.Chance(15) {
 			vl = maxVal
 		}
-		e := &proto.LogEntry{Term: int64(1 + i/7), Offset: first + int64(i), Value: gi.Bytes(vl), Timestamp: uint64(time.Now().UnixMilli())}
+		e := &proto.LogEntry{Term: int64(1 + i/7), Offset: first + int64(len(entries)), Value: gi.Bytes(vl), Timestamp: uint64(time.Now().UnixMilli())}
 		if cs.Format == "v1" && i == 0 && first != 0 {
 			// v1 pre-created segment has base `first`; nothing else to do
 		}
@@ -105,15 +111,30 @@ func runC10(r *Run) {
 			break
 		}
 		entries = append(entries, e)
+		r.Logf("append %d len=%d", e.Offset, len(e.Value))
 		if gi.Chance(40) {
 			if err := w.Sync(context.Background()); err != nil {
 				r.Fail("sync-error", "%v", err)
 				break
 			}
 			synced = len(entries)
+			r.Logf("sync")
 		}
 		if gi.Chance(25) {
 			time.Sleep(time.Duration(gi.Range(1, 90)) * time.Second)
+		}
+		if gi.Chance(10) && len(entries) > 1 {
+			// truncate the log somewhere and keep appending (what a follower does on a leader change)
+			keep := gi.Range(1, len(entries)-1)
+			x := first + int64(keep) - 1
+			if _, err := w.TruncateLog(x); err != nil {
+				r.Fail("truncate-error", "TruncateLog(%d): %v", x, err)
+				break
+			}
+			entries = entries[:keep]
+			synced = keep
+			r.Logf("truncate to %d", x)
+			r.Count("prog_truncations", 1)
 		}
 		if gi.Chance(6) {
 			// graceful reopen in the middle
@@ -125,6 +146,7 @@ func runC10(r *Run) {
 				r.Fail("open-error", "graceful reopen failed: %v", err)
 				return
 			}
+			r.Logf("graceful reopen")
 			// a graceful close followed by reopen does not make anything durable by itself
 		}
 	}
@@ -205,6 +227,14 @@ func runC10(r *Run) {
 		r.Count("nontrivial", 1)
 	}
 
+	if ents, err := os.ReadDir(imgWal); err == nil {
+		var names []string
+		for _, e := range ents {
+			fi, _ := e.Info()
+			names = append(names, fmt.Sprintf("%s:%d", e.Name(), fi.Size()))
+		}
+		r.Logf("image %s: %v idx(missing=%d empty=%d trunc=%d)", cs.Mode, names, st.IdxMissing, st.IdxEmpty, st.IdxTruncated)
+	}
 	// reopen inside recover()
 	opts2 := &wal.FactoryOptions{BaseWalDir: img, Retention: time.Hour, SegmentSize: cs.SegSize, SyncData: true}
 	var w2 wal.Wal
@@ -272,7 +302,19 @@ func runC10(r *Run) {
 				r.Count("read_error_after_reopen", 1)
 				switch {
 				case cs.Mode == "power-loss":
-					r.Fail("recovered-unreadable", "format=%s entry %d within the recovered log [%d..%d] is unreadable after a power loss: %v", cs.Format, o, first, last, err)
+					// diagnostic: does a second instance on the same image read it?
+					diag := "?"
+					if w3, err3 := wal.SimNewWal("ns", 1, opts2, cp, fakeClock{}, 10*time.Minute); err3 == nil {
+						if rd3, e3 := w3.NewReader(o - 1); e3 == nil {
+							if _, e4 := rd3.ReadNext(); e4 == nil {
+								diag = "second-instance-reads-it"
+							} else {
+								diag = "second-instance-fails-too: " + e4.Error()
+							}
+						}
+						_ = w3.Close()
+					}
+					r.Fail("recovered-unreadable", "format=%s entry %d within the recovered log [%d..%d] is unreadable after a power loss: %v [%s]", cs.Format, o, first, last, err, diag)
 				case mustOpen && !anyCommittedDamaged && o <= commitOrSynced(commit, first, synced):
 					// damage confined to the current segment's uncommitted tail or to index files
 					r.Fail("committed-unreadable", "format=%s entry %d (<= commit offset %d) unreadable although the damage (%s) only touched the uncommitted tail / index files: %v", cs.Format, o, commit, cs.Mutation, err)
